@@ -1,5 +1,6 @@
 import CppUModel.Model.LeakDetector
 import CppUModel.Model.Diagnostics
+import CppUModel.Gen.DiagnosticsBuffer
 /-!
 The text of `MemoryLeakDetector::report(period)` as a function of the table: the records the
 `getFirstLeak/getNextLeak` walk visits (detector model, C04) rendered by the report-buffer model of C14
@@ -38,6 +39,47 @@ def fastReportText (leaks : List Diag.Leak) : Diag.Bytes :=
 /-- the report text in closed form, from the table -/
 def fastReportTextOf (s : State) (p : Gen.LeakDetector.Period) (base : Nat) : Diag.Bytes :=
   fastReportText ((reportedLeaks s p).map (Node.toLeak base))
+
+/-! ### reports asked for again: the report builder's counters as state
+
+`report()` does not empty the detector's text buffer (only `startChecking()` does), so a second `report()` /
+`FinalReport()` appends to the text of the first and starts from the counters (`total_leaks_`,
+`giveWarningOnUsingMalloc_`) the first one left — unless the function that begins a report resets them.  WHICH function
+holds the two resets is read from the regenerated statement lists of `startMemoryLeakReporting` and
+`MemoryLeakOutputStringBuffer::clear` (`Gen.DiagBuf`, regenerated from the source on every run). -/
+
+open Gen.DiagBuf in
+/-- the counter resets among the statements of a regenerated body, applied -/
+def applyResets (body : List Gen.DiagBuf.Stmt) (o : Diag.OutBuf) : Diag.OutBuf :=
+  { o with total := if body.contains (Stmt.simple (Simple.setTotal 0)) then 0 else o.total,
+           mallocWarn := if body.contains (Stmt.simple (Simple.setMallocWarn false)) then false else o.mallocWarn }
+
+/-- `startMemoryLeakReporting`: the write limit is lowered, the counters are reset if the body says so -/
+def outStart (o : Diag.OutBuf) : Diag.OutBuf :=
+  applyResets Gen.DiagBuf.startMemoryLeakReporting { o with buf := o.buf.setWriteLimit Diag.listLimitArg }
+
+/-- `MemoryLeakOutputStringBuffer::clear` (what `startChecking()` does to the text) -/
+def outClear (o : Diag.OutBuf) : Diag.OutBuf := applyResets Gen.DiagBuf.obClear o.clear
+
+/-- the state in which `stopMemoryLeakReporting` finds the builder: after the start and one `reportMemoryLeak` per leak -/
+def outBeforeStop (o : Diag.OutBuf) (leaks : List Diag.Leak) : Diag.OutBuf := leaks.foldl Diag.OutBuf.reportLeak (outStart o)
+
+/-- `ConstructMemoryLeakReport` on the builder as the earlier calls left it -/
+def outReport (o : Diag.OutBuf) (leaks : List Diag.Leak) : Diag.OutBuf := (outBeforeStop o leaks).stop
+
+/-- a sequence of reports on one detector without a `startChecking()` in between: the builder after each -/
+def outReports (o : Diag.OutBuf) : List (List Diag.Leak) → List Diag.OutBuf
+  | [] => []
+  | l :: rest => outReport o l :: outReports (outReport o l) rest
+
+/-- the totals the footers of those reports state (`stopMemoryLeakReporting` prints `total_leaks_` as it finds it) -/
+def statedTotals (o : Diag.OutBuf) : List (List Diag.Leak) → List Nat
+  | [] => []
+  | l :: rest => (outBeforeStop o l).total :: statedTotals (outReport o l) rest
+
+/-- the text one more report appends to the detector's text -/
+def appendedText (o : Diag.OutBuf) (leaks : List Diag.Leak) : Diag.Bytes :=
+  (outReport o leaks).buf.text.drop o.buf.text.length
 
 /-- FNV-1a (64 bit), used to compare long texts between harness and model -/
 def fnv1a (bs : List UInt8) : UInt64 :=
